@@ -390,3 +390,24 @@ Section Accumulated.
     specialize (H Hc i Hi). lia.
   Qed.
 End Accumulated.
+
+(** * Partial success: reported iff something was rejected or a message came along *)
+Lemma reports_iff p :
+  reports p = true <-> exists n m, p = Partial n m /\ (n <> 0%N \/ m = true).
+Proof.
+  destruct p as [|n m]; cbn.
+  - split; [discriminate | intros [n [m [H _]]]; discriminate].
+  - rewrite orb_true_iff, negb_true_iff, N.eqb_neq. split.
+    + intros H. exists n, m. split; [reflexivity | exact H].
+    + intros [n' [m' [E H]]]. inversion E; subst. exact H.
+Qed.
+
+Lemma partial_report_iff e1 e2 bo cf cfg (p : partial_info) rest :
+  let o := retry_run e1 e2 bo cf cfg (OSuccess (reports p) :: rest) in
+  res o = ROk /\ attempts o = 1%nat /\
+  (handled o = 1%nat <-> exists n m, p = Partial n m /\ (n <> 0%N \/ m = true)) /\
+  (handled o = 0%nat \/ handled o = 1%nat).
+Proof.
+  cbv zeta. unfold retry_run. rewrite <- reports_iff.
+  destruct (enabled cfg); cbn; destruct (reports p); cbn; repeat split; auto; try discriminate.
+Qed.
